@@ -6,6 +6,7 @@ import (
 	"fmt"
 	"io"
 	"path/filepath"
+	"sync/atomic"
 	"time"
 
 	"github.com/mutagen-io/mutagen/pkg/encoding"
@@ -29,6 +30,9 @@ const (
 
 var errWait = errors.New("wait bound exceeded")
 
+// errRescanLoop: the session fell into its scan-retry loop; no cycle completed.
+var errRescanLoop = errors.New("session is waiting to rescan after repeated scan errors")
+
 // session is one real synchronization session inside one real Manager.
 type session struct {
 	mgr         *synchronization.Manager
@@ -47,7 +51,7 @@ var modeNames = map[string]core.SynchronizationMode{
 // openSession creates a manager (its data directory is taken from
 // MUTAGEN_DATA_DIRECTORY, which the child process owns) and one session
 // between two local roots in no-watch mode.
-func openSession(alphaRoot, betaRoot, mode string, logw io.Writer) (*session, error) {
+func openSession(alphaRoot, betaRoot, mode string, betaCap uint64, logw io.Writer) (*session, error) {
 	logger := logging.NewLogger(logging.LevelTrace, logw)
 	mgr, err := synchronization.NewManager(logger)
 	if err != nil {
@@ -71,7 +75,12 @@ func openSession(alphaRoot, betaRoot, mode string, logw io.Writer) (*session, er
 	}
 	ctx, cancel := context.WithTimeout(context.Background(), createBound)
 	defer cancel()
-	id, err := mgr.Create(ctx, alphaURL, betaURL, cfg, &synchronization.Configuration{}, &synchronization.Configuration{}, "l3", nil, false, "")
+	// endpoint-specific configuration: an entry-count limit on beta only
+	cfgBeta := &synchronization.Configuration{MaximumEntryCount: betaCap}
+	if err := cfgBeta.EnsureValid(true); err != nil {
+		return nil, fmt.Errorf("beta configuration rejected: %w", err)
+	}
+	id, err := mgr.Create(ctx, alphaURL, betaURL, cfg, &synchronization.Configuration{}, cfgBeta, "l3", nil, false, "")
 	if err != nil {
 		mgr.Shutdown()
 		return nil, fmt.Errorf("Create: %w", err)
@@ -128,9 +137,41 @@ func (s *session) settle(bound time.Duration) (*synchronization.State, error) {
 // is followed by another one on its own).
 func (s *session) flush() (*synchronization.State, error, error) {
 	ctx, cancel := context.WithTimeout(context.Background(), flushBound)
+	// A scan that keeps failing (for instance a root holding more entries than
+	// its endpoint's limit) makes the session retry every few seconds and the
+	// flush wait for ever; a watcher gives the flush up as soon as the session
+	// reports that state.
+	var rescanLoop atomic.Bool
+	var rescanState atomic.Pointer[synchronization.State]
+	watchCtx, stopWatch := context.WithCancel(ctx)
+	watchDone := make(chan struct{})
+	go func() {
+		defer close(watchDone)
+		var idx uint64
+		for {
+			next, states, err := s.mgr.List(watchCtx, s.sel, idx)
+			if err != nil || len(states) != 1 {
+				return
+			}
+			if states[0].Status == synchronization.Status_WaitingForRescan {
+				rescanState.Store(states[0])
+				rescanLoop.Store(true)
+				cancel()
+				return
+			}
+			if idx = next; idx == 0 {
+				idx = 1
+			}
+		}
+	}()
 	flushErr := s.mgr.Flush(ctx, s.sel, "", false)
-	timedOut := ctx.Err() != nil
+	timedOut := ctx.Err() != nil && !rescanLoop.Load()
+	stopWatch()
+	<-watchDone
 	cancel()
+	if rescanLoop.Load() {
+		return rescanState.Load(), errRescanLoop, nil
+	}
 	if timedOut {
 		return nil, flushErr, errWait
 	}
